@@ -40,7 +40,8 @@ pub fn generate(prop: &str, thorough: bool, rng: &mut Rng, em: &mut Emit) {
     match prop {
         "C01" | "C06" | "C08" => c01::generate(prop, thorough, rng, em),
         "C02" => c02::generate(thorough, rng, em),
-        "C03" | "C04" | "C10" => c03::generate(prop, thorough, rng, em),
+        "C03" => { c03::generate(prop, thorough, rng, em); c01::generate("C03native", thorough, rng, em) }
+        "C04" | "C10" => c03::generate(prop, thorough, rng, em),
         "C05" => c05::generate(thorough, rng, em),
         "C07" => c07::generate(thorough, rng, em),
         "C09" => c09::generate(thorough, rng, em),
